@@ -43,6 +43,13 @@ CONTRACTS = {
         "arithmetic, reductions, rank-0 conversions, to_dense, allclose, qr, svd, eigh, solve, svd_truncated",
         "quick: 2 targeted cases per (operation, symmetry, class) + 3000 random pairs; thorough: 20 per cell + 60000",
     ),
+    "C09.op_equal_inherited": (
+        "the cases of C09.op_equal whose suffix contains an operation inherited unchanged from the block base class (sum, max, min, "
+        "abs, sqrt, clip, isfinite, item, float, complex, int, bool), which read the stored blocks without the pending signs on the "
+        "unchanged tree (known defect F10); kept in a record of their own so that their expected failures cannot crowd out others; "
+        "obligations are still named C09.op_equal.<opname>",
+        "as generated for C09.op_equal (about 10 % of its cases)",
+    ),
     "C09.applied_once": (
         "chains of <= 6 sign-preserving operations (transposes with and without phase, copies, fuse followed by unfuse) after the "
         "lazy array; each intermediate compared between the lazy and the synchronised run, pure transpose chains also against the "
@@ -157,6 +164,8 @@ def lazy_prefix(rng, sym, static, kind, dtype="float64", tries=6):
 
 
 def _desc(contract, g, nprefix, t, tag):
+    if contract == "C09.op_equal" and any(s[0] in BLOCKBASE_OPS for s in g.steps[nprefix:]):
+        contract = "C09.op_equal_inherited"
     return {"contract": contract, "program": g.program(), "sync_at": {"nprefix": nprefix, "slot": t}, "gen": tag}
 
 
@@ -420,7 +429,7 @@ def check_case(d):
         return {"fingerprint": fingerprint(prog, t), "nontrivial": nontrivial, "failures": fails[:6],
                 "sample": {"sym": base["sym"], "prefix": [s[0] for s in prog["steps"]], "nphases": len(x.phases)}}
     B.vals[t] = B.vals[t].phase_sync()
-    tag = "op_equal" if contract == "C09.op_equal" else "applied_once"
+    tag = "applied_once" if contract == "C09.applied_once" else "op_equal"
     prev = None
     pos = 0
     while not A.done():
